@@ -302,8 +302,10 @@ impl Context {
             let mut parent = task.parent();
             while let Some(p) = parent {
                 if p.is_kind(NodeKind::Step) || p.is_kind(NodeKind::Act) {
-                    p.set_state(TaskState::Backed);
-                    self.emit_task(&p)?;
+                    if !p.state().is_completed() {
+                        p.set_state(TaskState::Backed);
+                        self.emit_task(&p)?;
+                    }
                     break;
                 }
                 parent = p.parent();
@@ -342,9 +344,11 @@ impl Context {
         let ctx = self;
         let mut parent = task.parent();
         while let Some(task) = parent {
-            task.set_state(TaskState::Aborted);
-            ctx.set_task(&task);
-            ctx.emit_task(&ctx.task())?;
+            if !task.state().is_completed() {
+                task.set_state(TaskState::Aborted);
+                ctx.set_task(&task);
+                ctx.emit_task(&ctx.task())?;
+            }
 
             for t in task.children() {
                 if t.state().is_pending() {
@@ -416,6 +420,10 @@ impl Context {
             if task.state().is_error() {
                 if let Some(err) = task.err() {
                     if let Some(parent) = task.parent() {
+                        if parent.state().is_completed() {
+                            // a finished task keeps its state
+                            return Ok(());
+                        }
                         parent.set_err(&err);
                         return parent.error(self);
                     }
